@@ -36,6 +36,8 @@ Section RangeTotal.
                       else if is_expr node then
                         match p with
                         | Some KMarkup | Some KMath => call bundle (RExprEmb cx)
+                        | Some KMathAttach | Some KMathFrac | Some KMathRoot =>
+                            if is_code_mode m then call bundle (RExprEmb cx) else call bundle (RExpr cx)
                         | _ => call bundle (RExpr cx)
                         end
                       else call bundle (RPattern cx)) = Ok (d, cnt)).
@@ -49,7 +51,7 @@ Section RangeTotal.
           { destruct (conversions_total swidth cfg (annotate node) (RExpr cx) 0 Hwn Hr) as (d & n' & E & _). eauto. }
           assert (H2 : exists d cnt, call (build swidth cfg (annotate node)) (RExprEmb cx) 0 = Ok (d, cnt)).
           { destruct (conversions_total swidth cfg (annotate node) (RExprEmb cx) 0 Hwn Hr) as (d & n' & E & _). eauto. }
-          destruct p as [pk|]; [|exact H1]. destruct pk; first [exact H1|exact H2].
+          destruct p as [pk|]; [|exact H1]. destruct pk; first [exact H1|exact H2|destruct (is_code_mode m); [exact H2|exact H1]].
         + assert (Hr : sreq_ok (build swidth cfg (annotate node)) (RPattern cx)).
           { cbn [sreq_ok]. rewrite bt_build. unfold is_pattern. rewrite kind_of_annotate.
             unfold coverable in Hcov. apply andb_prop in Hcov. destruct Hcov as [_ Hcov].
